@@ -157,7 +157,10 @@ namespace adept {
       //      s << "Failed to solve symmetric system of equations: LAPACK ?sysv returned code " << status;
       //      throw(matrix_ill_conditioned(s.str() ADEPT_EXCEPTION_LOCATION));
       std::cerr << "Warning: LAPACK solve symmetric system failed (?sysv): trying general (?gesv)\n";
-      return solve(Array<2,T,false>(A_),b_);
+      // A_ (and possibly b_) have been overwritten by ?sysv with its
+      // factorization, so the general solver must be given the
+      // original operands
+      return solve(Array<2,T,false>(A),b);
     }
     return b_;    
   }
